@@ -108,6 +108,33 @@ def handle (op : String) (j : Json) : Option Json :=
                ("stem", str (stem n)),
                ("cacheDir", Json.bool (isCacheDir n)),
                ("strip", str (pyStrip n))])
+  | "files.prepend" =>
+    some (obj [("entries", names (prependSplit (nm (getStrD j "s"))))])
+  | "files.loadfile" =>
+    let ext := match getStrD j "ext" with
+      | "py" => Ext.py
+      | "compiled" => Ext.compiled
+      | _ => Ext.other
+    let r := loadPythonFile ext (getBoolD j "self") (getBoolD j "cache") (getBoolD j "legacy")
+    some (obj [("from", Json.str (match r with
+      | .self => "self" | .cache => "cache" | .legacy => "legacy"
+      | .importError => "importError" | .assertFalse => "assertFalse"))])
+  | "files.fromPath" =>
+    let fs := fsOfJson (getObj j "fs")
+    let cfg := cfgOfJson (getObj j "cfg")
+    some (obj [("results", Json.arr ((getNatList j "nodes").map (fun n =>
+      match fromFilename fs cfg n with
+      | .ok none => Json.null
+      | .ok (some s) => Json.arr #[Json.str "ok", str s.rev]
+      | .error (.loadFailed _) => Json.arr #[Json.str "err", Json.str "loadFailed"]
+      | .error (.noRevisionId _) => Json.arr #[Json.str "err", Json.str "noRevisionId"])).toArray),
+      -- the specification's view of each file taken alone: a revision file defining an id / one that cannot be loaded / not a revision file
+      ("spec", Json.arr ((getNatList j "nodes").map (fun n =>
+        if Spec.Files.isRevFile fs cfg n then
+          match Spec.Files.definesId fs n with
+          | some id => Json.arr #[Json.str "ok", str id]
+          | none => Json.arr #[Json.str "err"]
+        else Json.null)).toArray)])
   | _ => none
 
 end Drv.Files
